@@ -122,6 +122,7 @@ struct ServerRig
   verif::EngineLog log;
   std::mutex m;
   std::vector<std::string> acts;
+  std::vector<std::string> handed;   // the body each handler invocation received, in order
   std::thread::id mainThread = std::this_thread::get_id();
   std::atomic<bool> closedByFraming{false};
   std::shared_ptr<Transport> tr;
@@ -145,6 +146,12 @@ struct ServerRig
     srv = std::make_unique<HttpServer>("127.0.0.1", 0);
     srv->_transport = tr;
     srv->_shutdown = false;
+    srv->setDefaultHandler([this](const HttpServer::Request &req, HttpServer::Response &res)
+    {
+      std::lock_guard<std::mutex> lk(m);
+      handed.push_back(hex(req.body));
+      res.status = 200;
+    });
     iora::verif::httpRequestFramed = [this](std::uint64_t, const std::string &raw)
     {
       std::lock_guard<std::mutex> lk(m);
@@ -157,11 +164,19 @@ struct ServerRig
     srv->_transport.reset();
     srv.reset();
   }
-  void quiesce()
+  // the requests of the session have all been handled: nothing in flight or queued in its record (the pool's own
+  // counters are not enough: a worker bumps the active count only after it has taken the task)
+  void quiesce(SessionId sid)
   {
-    for (int i = 0; i < 5000; ++i)
+    for (int i = 0; i < 25000; ++i)
     {
-      if (srv->_threadPool.getPendingTaskCount() == 0 && srv->_threadPool.getActiveThreadCount() == 0) break;
+      bool busy = false;
+      {
+        std::lock_guard<std::mutex> lk(srv->_sessionMutex);
+        auto it = srv->_sessionInfo.find(sid);
+        if (it != srv->_sessionInfo.end()) busy = it->second.requestInFlight || !it->second.pendingRequests.empty();
+      }
+      if (!busy && srv->_threadPool.getPendingTaskCount() == 0 && srv->_threadPool.getActiveThreadCount() == 0) break;
       std::this_thread::sleep_for(std::chrono::microseconds(200));
     }
   }
@@ -175,6 +190,7 @@ static std::string runServer(const std::vector<std::string> &chunks)
   {
     std::lock_guard<std::mutex> lk(rig.m);
     rig.acts.clear();
+    rig.handed.clear();
   }
   rig.closedByFraming = false;
   {
@@ -187,7 +203,7 @@ static std::string runServer(const std::vector<std::string> &chunks)
     std::string b = unhex(c);
     rig.srv->handleIncomingData(sid, reinterpret_cast<const std::uint8_t *>(b.data()), b.size());
   }
-  rig.quiesce();
+  rig.quiesce(sid);
   std::size_t buffered = 0;
   {
     std::lock_guard<std::mutex> lk(rig.srv->_sessionMutex);
@@ -204,7 +220,12 @@ static std::string runServer(const std::vector<std::string> &chunks)
     std::lock_guard<std::mutex> lk(rig.m);
     for (auto &a : rig.acts) o << a << " ";
   }
-  o << "buf=" << buffered;
+  o << "buf=" << buffered << " H=";
+  {
+    std::lock_guard<std::mutex> lk(rig.m);
+    if (rig.handed.empty()) o << "none";
+    for (std::size_t i = 0; i < rig.handed.size(); ++i) o << (i ? "," : "") << rig.handed[i];
+  }
   return o.str();
 }
 
